@@ -1,12 +1,208 @@
-(* C07 — every operation preserves well-formedness.  (growing; see the final header) *)
-From Coq Require Import ZArith List Bool.
-From Catii Require Import Base.Sorted IIndex.Model IIndex.ModelFacts IIndex.OpsA IIndex.ShiftCommon.
+(* C07 - every operation preserves index well-formedness.
+
+   [WF idx] (IIndex/Model.v): 0 <= rows <= 2^32, non-negative extents, keys distinct (a dict), every key's higher
+   coordinates within the shape (arity included), every row-id list strictly increasing, within [0, rows), non-empty,
+   not listed under the common value, and exclusivity (no cell listed under two values).  [wf_b] is its boolean twin,
+   evaluated by the harness on the REAL state after every step ([C07_wf_b_reflects]).
+   Per-operation theorems [op_wf], under the argument conditions listed in Properties/C06.v ([args_ok]);
+   [C07_step_wf] / [C07_history_wf] lift them to every operation of the ADT and to arbitrary finite histories
+   (which may start from from_array: [C07_from_array_wf]; loading from INDX: Properties/C10.v).
+   Consequences: the reported distinct values are exactly the values that occur ([C07_wf_abscissae]), the sparsity
+   counts exactly the cells holding the common value ([C07_wf_sparsity]), no listed value occurs nowhere and the
+   extent a cube infers is reached by an occurring value unless it is the common value ([C07_wf_infer_extent]),
+   and two well-formed indexes with the same content have the same entries ([C07_canonical]).
+   Proofs: IIndex/ModelFacts.v, ShiftCommon.v, OpsAProofs_*.v, OpsBProofs_*.v, History.v, Count.v, Consequences.v. *)
+From Coq Require Import ZArith List Bool Permutation.
+From Catii Require Import Base.Sorted IIndex.Res IIndex.Model IIndex.ModelFacts IIndex.OpsA IIndex.OpsB IIndex.Step
+  IIndex.ShiftCommon IIndex.OpsAProofs_Observers IIndex.OpsAProofs_Append IIndex.OpsAProofs_Filtered
+  IIndex.OpsAProofs_FilteredAuto IIndex.OpsAProofs_Update IIndex.OpsAProofs_SetIf IIndex.ArgsOkB
+  IIndex.OpsBProofs_reindexed IIndex.OpsBProofs_sliced IIndex.OpsBProofs_stack IIndex.OpsBProofs_collapsed
+  IIndex.OpsBFromArray1 IIndex.HistorySpec IIndex.History IIndex.HistoryB IIndex.Count IIndex.Consequences IIndex.EqProofs
+  IIndex.FromArray IIndex.C01Proofs.
 Import ListNotations.
 Open Scope Z_scope.
 
-Theorem C07_wf_b_reflects idx : wf_b idx = true <-> WF idx.
+(* ---- the boolean validator run on real states is exactly WF ---- *)
+Theorem C07_wf_b_reflects idx :
+  wf_b idx = true <-> WF idx.
 Proof. exact (wf_b_spec idx). Qed.
 Print Assumptions C07_wf_b_reflects.
-Theorem C07_shift_common_wf idx v : WF idx -> WF (shift_common idx v).
+
+(* ---- every operation ---- *)
+Theorem C07_shift_common_wf idx v :
+  WF idx -> WF (shift_common idx v).
 Proof. exact (shift_common_wf idx v). Qed.
 Print Assumptions C07_shift_common_wf.
+
+Theorem C07_shift_common_auto_wf idx :
+  WF idx -> WF (shift_common_auto idx).
+Proof. exact (shift_common_auto_wf idx). Qed.
+Print Assumptions C07_shift_common_auto_wf.
+
+Theorem C07_copy_wf idx :
+  WF idx -> WF (copy idx).
+Proof. exact (copy_wf idx). Qed.
+Print Assumptions C07_copy_wf.
+
+Theorem C07_append_wf idx other :
+  WF idx -> WF other -> append_ok idx other -> WF (append idx other).
+Proof. exact (append_wf idx other). Qed.
+Print Assumptions C07_append_wf.
+
+Theorem C07_filtered_wf idx mask :
+  WF idx -> filtered_ok idx mask -> WF (filtered idx mask).
+Proof. exact (filtered_wf idx mask). Qed.
+Print Assumptions C07_filtered_wf.
+
+Theorem C07_update_wf idx upd :
+  WF idx -> upd_ok idx upd -> WF (update idx upd).
+Proof. exact (update_wf idx upd). Qed.
+Print Assumptions C07_update_wf.
+
+Theorem C07_union_update_wf idx other :
+  WF idx -> other_ok idx other -> WF (union_update idx other).
+Proof. exact (union_update_wf idx other). Qed.
+Print Assumptions C07_union_update_wf.
+
+Theorem C07_intersection_update_wf idx other :
+  WF idx -> NoDup (keys other) -> WF (intersection_update idx other).
+Proof. exact (intersection_update_wf idx other). Qed.
+Print Assumptions C07_intersection_update_wf.
+
+Theorem C07_difference_update_wf idx other :
+  WF idx -> NoDup (keys other) -> WF (difference_update idx other).
+Proof. exact (difference_update_wf idx other). Qed.
+Print Assumptions C07_difference_update_wf.
+
+Theorem C07_set_if_wf idx k v :
+  WF idx ->
+  (v <> [] -> in_hshape (snd k) (hshape idx) /\ fst k <> common idx) ->
+  sincr v -> (forall r, In r v -> 0 <= r < nrows idx) ->
+  (forall r u, In r v -> listed idx r (snd k) u -> u = fst k) ->
+  WF (set_if idx k v).
+Proof. exact (set_if_wf idx k v). Qed.
+Print Assumptions C07_set_if_wf.
+
+Theorem C07_reindexed_wf idx m sh :
+  WF idx -> WF (reindexed idx m sh).
+Proof. exact (reindexed_wf idx m sh). Qed.
+Print Assumptions C07_reindexed_wf.
+
+Theorem C07_sliced_wf idx orders out :
+  WF idx -> orders_ok orders (hshape idx) ->
+  sliced idx orders = Ok out -> WF out.
+Proof. exact (sliced_wf idx orders out). Qed.
+Print Assumptions C07_sliced_wf.
+
+Theorem C07_column_stack_wf idxs nc0 out :
+  cs_args_ok idxs -> column_stack idxs nc0 = Ok out -> WF out.
+Proof. exact (column_stack_wf idxs nc0 out). Qed.
+Print Assumptions C07_column_stack_wf.
+
+Theorem C07_collapsed_wf idx prec m out :
+  WF idx -> collapse_ok idx prec -> collapsed idx prec m = Ok out -> WF out.
+Proof. exact (collapsed_wf idx prec m out). Qed.
+Print Assumptions C07_collapsed_wf.
+
+(* ---- construction from arrays (both strategies, every option; C01 vertical) ---- *)
+Theorem C07_from_array_wf a o s idx :
+  rect a -> a_nrows a <= 2 ^ 32 -> pre_data a o -> from_array a o s = Ok idx -> WF idx.
+Proof. exact (from_array_wf a o s idx). Qed.
+Print Assumptions C07_from_array_wf.
+
+(* ---- every step, every history ---- *)
+Theorem C07_step_wf idx o idx' :
+  WF idx -> args_ok idx o -> step idx o = Ok idx' -> WF idx'.
+Proof. exact (step_wf idx o idx'). Qed.
+Print Assumptions C07_step_wf.
+
+Theorem C07_history_wf  :
+  forall ops s0, WF s0 -> hist_ok s0 ops -> exists s, run s0 ops = Ok s /\ WF s.
+Proof. exact (history_wf). Qed.
+Print Assumptions C07_history_wf.
+
+Theorem C07_history_wf_run ops s0 s :
+  WF s0 -> hist_ok s0 ops -> run s0 ops = Ok s -> WF s.
+Proof. exact (history_wf_run ops s0 s). Qed.
+Print Assumptions C07_history_wf_run.
+
+(* ---- consequences ---- *)
+Theorem C07_wf_abscissae idx v :
+  WF idx ->
+  (In v (abscissae idx) <-> exists r hc, in_range idx r hc /\ dense idx r hc = v).
+Proof. exact (wf_abscissae idx v). Qed.
+Print Assumptions C07_wf_abscissae.
+
+Theorem C07_wf_sparsity idx :
+  WF idx ->
+  size idx - cnt_sum (value_counts (entries idx)) = dense_count idx (common idx).
+Proof. exact (wf_sparsity idx). Qed.
+Print Assumptions C07_wf_sparsity.
+
+Theorem C07_wf_listed_occurs idx v :
+  WF idx -> In v (listed_vals idx) ->
+  exists r hc, in_range idx r hc /\ dense idx r hc = v.
+Proof. exact (wf_listed_occurs idx v). Qed.
+Print Assumptions C07_wf_listed_occurs.
+
+Theorem C07_wf_infer_extent idx :
+  WF idx ->
+  (forall r hc, dense idx r hc < infer_extent idx) /\
+  (infer_extent idx - 1 = common idx \/
+   exists r hc, in_range idx r hc /\ dense idx r hc = infer_extent idx - 1).
+Proof. exact (wf_infer_extent idx). Qed.
+Print Assumptions C07_wf_infer_extent.
+
+Theorem C07_canonical a b :
+  WF a -> WF b -> same_content a b -> Permutation (entries a) (entries b).
+Proof. exact (canonical a b). Qed.
+Print Assumptions C07_canonical.
+
+(* every slice yielded by slices1d is well-formed (and is the labelled column: C06_slices1d_spec) *)
+Theorem C07_slices1d_wf idx : WF idx ->
+  NoDup (map fst (slices1d idx))
+  /\ (forall hc, In hc (map fst (slices1d idx)) <-> in_hshape hc (hshape idx))
+  /\ (forall lbl s, In (lbl, s) (slices1d idx) -> slice_of idx lbl s).
+Proof. exact (slices1d_spec idx). Qed.
+Print Assumptions C07_slices1d_wf.
+
+(* ---- non-vacuity: a well-formed 2-D index, an ill-formed one for every clause of WF, and a history that stays
+   well-formed (the 17-step history of Properties/C06.v restated) ---- *)
+Definition ex2 : iindex :=
+  {| entries := [((1, [0]), [0; 2]); ((2, [0]), [1]); ((1, [1]), [4]); ((7, [2]), [0; 1; 2; 3])];
+     common := 0; nrows := 5; hshape := [3] |}.
+Definition ex2b : iindex := {| entries := [((5, [1]), [0; 1])]; common := 7; nrows := 2; hshape := [3] |}.
+Definition ex1 : iindex := {| entries := [((3, []), [0; 3; 5])]; common := 1; nrows := 6; hshape := [] |}.
+Definition ex_hist : list op :=
+  [OAppend ex2b; OUpdate [((0, [0]), [0]); ((9, [1]), [1; 6])]; OUnion [((1, [0]), [2; 5]); ((4, [2]), [1])];
+   OInter [((1, [0]), [2; 5]); ((0, [0]), [0; 3; 4]); ((9, [1]), [1; 6]); ((4, [2]), [1]); ((0, [1]), [0; 2; 3]);
+           ((2, [0]), [1]); ((5, [1]), [5])];
+   ODiff [((9, [1]), [6])]; OSetIf (2, [0]) [1; 6];
+   OFiltered [true; false; true; true; true; true; true]; OShift 4; OCopy; OGetForce (7, [2]); OSlices1d;
+   OReindexed (Some [(0, 2); (9, 2)]) true; OReindexed None false; OShiftAuto;
+   OColumnStack [ex1] [ex1] (Some 1);
+   OSliced [OList [2; 1; 3]];
+   OCollapsed [3; -1; 2; 1] (Some [(0, 2)])].
+Definition with_es (es : list entry) : iindex := {| entries := es; common := 0; nrows := 5; hshape := [3] |}.
+
+Example C07_nonvacuous :
+  WF ex2 /\ hist_ok ex2 ex_hist /\
+  (* wf_b rejects: unsorted rows, row id out of range, column out of shape, wrong arity, empty entry,
+     entry under the common value, one cell under two values, duplicate key *)
+  map wf_b [with_es [((1, [0]), [2; 0])]; with_es [((1, [0]), [5])]; with_es [((1, [3]), [0])];
+            with_es [((1, []), [0])]; with_es [((1, [0]), [])]; with_es [((0, [0]), [1])];
+            with_es [((1, [0]), [1]); ((2, [0]), [1])]; with_es [((1, [0]), [1]); ((1, [0]), [2])]]
+  = [false; false; false; false; false; false; false; false] /\
+  forallb (fun n => match run ex2 (firstn n ex_hist) with Ok s => wf_b s | Err _ => false end) (seq 0 18) = true.
+Proof.
+  split; [apply wf_b_spec; vm_compute; reflexivity|].
+  split; [apply hist_ok_b_sound; vm_compute; reflexivity|].
+  split; vm_compute; reflexivity.
+Qed.
+Print Assumptions C07_nonvacuous.
+
+Example C07_consequences_run :
+  (forall v, In v (abscissae ex2) <-> In v [1; 2; 7; 0]) /\ infer_extent ex2 = 8 /\
+  abscissae (with_es [((1, [0]), [0; 1; 2; 3; 4]); ((1, [1]), [0; 1; 2; 3; 4]); ((1, [2]), [0; 1; 2; 3; 4])]) = [1; 1; 1].
+Proof. split; [intros v; vm_compute; tauto|]. split; vm_compute; reflexivity. Qed.
+Print Assumptions C07_consequences_run.
